@@ -304,8 +304,11 @@ def finish_cuts(ctx, res) -> None:
         {"name": "expired_first", "n": 4, "expired": (1, 3), "max": 5},
         {"name": "buffer_of_one", "n": 3, "expired": (), "max": 1},
         {"name": "buffer_of_one_expired", "n": 4, "expired": (2,), "max": 1},
+        {"name": "slow_wire", "n": 3, "expired": (), "max": 5, "latency": 4},
+        {"name": "slow_wire_expired", "n": 3, "expired": (1,), "max": 2, "latency": 3},
     ]
     ks = range(0, ctx.scale(70, 160))
+    ks_slow = range(0, ctx.scale(150, 320))
     orig = ru.random.random
     ru.random.random = lambda: 0.8          # MEDIUM priority first: the list the messages are in
     problems = []
@@ -313,8 +316,9 @@ def finish_cuts(ctx, res) -> None:
     async def main(loop):
         loop.set_exception_handler(lambda l, c: None)
         for sc in scenarios:
-            for k in ks:
+            for k in (ks_slow if sc.get("latency") else ks):
                 w = redisrun.RedisWorld([1])
+                w.srv.latency = sc.get("latency", 0)
                 now = CLOCK.now_us()
                 for i in range(1, sc["n"] + 1):
                     exp = i in sc["expired"]
@@ -324,7 +328,7 @@ def finish_cuts(ctx, res) -> None:
                 for _ in range(k):
                     await asyncio.sleep(0)
                 await w.consumers[1].finish()
-                for _ in range(60):
+                for _ in range(60 + 30 * sc.get("latency", 0)):
                     await asyncio.sleep(0)
                 pl = w.places()
                 res.count("redis_finish_cut_runs")
@@ -400,3 +404,47 @@ def consume_cuts(ctx, res) -> None:
         res.failures.append(Failure("redis_consume_cut_leaves_message_in_flight", f"consume() cancelled after {k} loop iterations while it was "
                                     f"dead-lettering a message that expired in the buffer: places {pl}, marked as processing and held by nobody: {stuck}, "
                                     f"not in exactly one place: {lost}", {"redis_consume_cut": {"k": k}}, None))
+
+
+def consume_expired_run(ctx, res) -> None:
+    """consume() of the Redis consumer with SEVERAL consecutive messages that have expired in its local buffer: every one of them
+    is dead-lettered, what is handed out is alive (C12; the re-check at hand-out time must be repeated, not done once)."""
+    import repid.connections.redis.utils as ru
+    from ..world import key
+    from ..pyparams import mk_params
+    from ..clock import CLOCK
+    orig = ru.random.random
+    ru.random.random = lambda: 0.8
+    problems = []
+
+    async def main(loop):
+        loop.set_exception_handler(lambda l, c: None)
+        for ttls in ([200_000, 200_000, None, 200_000, None], [200_000, 200_000, 200_000, None], [None, 200_000, 200_000, None, 200_000]):
+            w = redisrun.RedisWorld([1])
+            now = CLOCK.now_us()
+            for i, ttl in enumerate(ttls, start=1):
+                await w.mb.enqueue(key(f"m{i}", "t1", "q1", 5), f"p{i}", mk_params(ts=now, ttl=ttl))
+            await w.add_consumer(1, 1, 0, None, 8)
+            await asyncio.sleep(0.6)
+            handed = []
+            for _ in range(len(ttls)):
+                try:
+                    got = await asyncio.wait_for(w.consumers[1].consume(), 0.5)
+                    handed.append(redisrun.num(got[0].id_))
+                except asyncio.TimeoutError:
+                    break
+            pl = {i: [x[0] for x in p] for i, p in w.places().items()}
+            alive = [i for i, ttl in enumerate(ttls, start=1) if ttl is None]
+            res.count("redis_buffered_expiry_runs")
+            res.add_case(f"redis_buffered_expiry:{ttls}:{handed}", True)
+            if handed != alive or any(pl.get(i) != ["dead"] for i, ttl in enumerate(ttls, start=1) if ttl is not None):
+                problems.append((ttls, handed, alive, pl))
+            await w.consumers[1].finish()
+    try:
+        run_virtual(main)
+    finally:
+        ru.random.random = orig
+    if problems:
+        ttls, handed, alive, pl = problems[0]
+        res.failures.append(Failure("redis_buffered_expired_handed_out", f"messages with ttls {ttls} (us; None = no ttl) prefetched alive, consumed 0.6 s "
+                                    f"later: consume() handed out {handed}, alive are {alive}; places {pl}", {"redis_buffered_expiry": {"ttls": ttls}}, None))
